@@ -17,7 +17,7 @@ from lib_table import Bundle
 PROPERTY = "C07"
 
 # CODE VARIANT FLAGS — the value that matches /repo as it is now (see Model/Table.lean `Flags`): 1 = rich 9.10.0 as found,
-# 0 = repaired; all six defects are repaired in /repo (fixes dd342b5, c798468, b5d172f, 1d61bac, ab98098, f955c6c)
+# 0 = repaired; all seven flags are repaired in /repo (fixes dd342b5, c798468, b5d172f, 1d61bac, ab98098, f955c6c, 75c2776), so every value is 0
 # 1 = `_render` emits `get_row(widths, "mid") * leading` as ONE line (F16); 0 = one separator line per leading (fix dd342b5)
 LEADING_REPEAT = int(__import__("os").environ.get("VERIF_C07_LEADING_REPEAT", "0"))
 # 1 = `_calculate_column_widths` caps the pad target by `min_width - extra` even when the table expands; 0 = repaired (fix c798468)
@@ -36,9 +36,10 @@ FLEX_NEGATIVE = int(__import__("os").environ.get("VERIF_C07_FLEX_NEGATIVE", "0")
 #     on the re-measure is never padded back to max_width; 0 = `table_width = sum(widths)` after the re-measure
 #     (fix f955c6c = pending_fixes/C07-table-expand-stale-width.diff)
 STALE_TABLE_WIDTH = int(__import__("os").environ.get("VERIF_C07_STALE_TABLE_WIDTH", "0"))
-# 1 = the flexible widths are clamped with max(0, width): a zero-ratio column that finds no room gets 0 cells, and one back from the
-#     `maximum or 1` re-measure after the collapse, so an expanding table is ONE CELL TOO WIDE; 0 = max(minimum, width): a
-#     zero-ratio column keeps its flex minimum like every other flexible column (pending_fixes/C01-table-ratio-zero-column.diff)
+# 1 = (read only when FLEX_NEGATIVE = 0) the flexible widths are clamped with max(0, width), the clamp fix ab98098 put in: a zero-ratio
+#     column that finds no room gets 0 cells, and one back from the `maximum or 1` re-measure after the collapse, so an expanding table
+#     is ONE CELL TOO WIDE; 0 = max(minimum, width): a zero-ratio column keeps its flex minimum like every other flexible column
+#     (fix 75c2776 = pending_fixes/C01-table-ratio-zero-column.diff)
 FLEX_CLAMP_ZERO = int(__import__("os").environ.get("VERIF_C07_FLEX_CLAMP_ZERO", "0"))
 FLAGS = (LEADING_REPEAT, MIN_WIDTH_CAPS_EXPAND, FIXED_RAW_MAXIMUM, NO_COLUMNS_ASSERTS, FLEX_NEGATIVE, STALE_TABLE_WIDTH, FLEX_CLAMP_ZERO)
 
@@ -204,7 +205,7 @@ def run_small(ctx):
 
 
 def run_collapse_keep(ctx):
-    """The hypothesis `hkeep` of `width_fits_partial` (not yet a theorem): when every column may wrap, every width is >= 1
+    """The fact proved as `collapse_widths_keep` (hypothesis `hkeep` of `width_fits_of_keep`): when every column may wrap, every width is >= 1
     and max_width >= the number of columns, `_collapse_widths` leaves every column at least one cell (and, with the model,
     sums to exactly max_width).  Evaluated on the real function: exhaustive for <= 4 columns of widths 1..6, seeded beyond."""
     from rich.table import Table
@@ -483,15 +484,22 @@ def run(ctx):
     ctx.rule = (
         "ratio/collapse arithmetic: bounded-exhaustive + seeded random (lib_ratio); _get_cells padding rules exhaustive over 8 paddings x "
         "pad_edge x collapse_padding x position; every box x 6 width vectors x 6 row kinds; tables: one-factor-at-a-time and interacting pairs "
-        "of all table options around 4 plain tables at every available width from the structural minimum up, then seeded random tables "
-        "(1..6 columns, 0..8 rows, all table and column options, nested Panel/Table/Padding cells, wide and zero-width characters, "
-        "ragged columns) x several available widths; distinct = distinct canonical requests (pool + variant)"
+        "of all table options (incl. width + min_width pairs and 8 incoming ConsoleOptions) around 5 small tables (two of them with over-long "
+        "wide words / nested folding tables) at every available width from the structural minimum up; fixed groups: ratio columns beside "
+        "fixed / empty / capped columns, tables without columns and ratio=0 columns from available width 0 up, Column objects, Table.grid, substituted "
+        "boxes (legacy_windows / ascii_only / safe_box), raising cells, multi-segment wide words in columns that do not fold, add_row with "
+        "two or more surplus cells, styles; then seeded random tables "
+        "(0..6 declared columns, 0..8 rows, all table and column options, nested Panel/Table/Padding cells, wide and zero-width characters, "
+        "ragged and add_row-created columns) x several available widths; distinct = distinct canonical requests (pool + variant)"
     )
     ctx.assumptions += [
         "cells are oracles: the model sees each padded cell only through Measurement.get and console.render_lines tabulated on real rich "
         "for widths 0..W (contract checked per entry: every rendered line has exactly the requested cell width; 0 <= min <= max <= w)",
-        "styles, links and control segments are not part of the model (lines are compared as plain text)",
-        "console: legacy_windows=False, ascii_only=False (Box.substitute is the identity), highlight=False",
+        "styles, links and control segments are not part of the model (lines are compared as plain text; the styles of every printed "
+        "character are checked by direct evaluation only: cell_styles / border_styles)",
+        "console: legacy_windows=False, ascii_only=False (Box.substitute is the identity) and highlight=False by default; consoles with "
+        "legacy_windows / ascii_only / safe_box=False are exercised too, Box.substitute then being answered by the driver through C08's "
+        "Frames.substituteBox (the table theorems take the substituted box as given); incoming highlight=True options only reach the cell oracles",
     ]
 
 
@@ -542,12 +550,13 @@ MANIFEST = {
     "below_structural_minimum_overflows and min_width_overflows show both limits are attained).  table_exact_collapsed_textlike (the "
     "re-measure stability hypothesis derived for text-like cells; remeasure_can_shrink: it is not automatic), collapse_widths_le, "
     "width_fits_any_ratio / table_expand_exact_any_ratio (ratio columns incl. ratio 0).  "
-    "Witnesses by `decide` for the six defects of rich 9.10.0 as found: old_table_rect_fails (F16, leading >= 2), old_expand_exact_fails (expand + min_width), "
+    "Witnesses by `decide` for the six defects of rich 9.10.0 as found and for the clamp that came with fix ab98098: old_table_rect_fails (F16, leading >= 2), old_expand_exact_fails (expand + min_width), "
     "old_expand_ratio_fails (ratio column beside a zero-width column) - at Flags.today; old_expand_stale_width_fails (stale table_width after the "
-    "re-measure), old_no_columns_asserts, old_flex_negative_asserts - at Flags.repaired.  Flags.repaired repairs the first three defects only "
-    "(leading, min_width, raw maximum); Flags.allRepaired repairs all six and is the variant /repo contains now.  "
+    "re-measure), old_no_columns_asserts, old_flex_negative_asserts - at Flags.repaired; old_ratio_zero_column_too_wide (ratio=0 column one cell too wide, "
+    "before fix 75c2776) - at Flags.allRepaired with flexClampZero on.  Flags.repaired repairs the first three defects only "
+    "(leading, min_width, raw maximum); Flags.allRepaired repairs all seven flags and is the variant /repo contains now.  "
     "Tie: the model's column widths and rendered lines equal `_calculate_column_widths` / `Console.render(table)` character for "
-    "character on ~4k (quick; evidence/C07.json: 4,067 tables rendered and 4,067 measured) / ~50k (thorough) generated tables (1..6 columns, 0..8 rows, all table and column options, nested "
+    "character on ~5k (quick; committed evidence/C07.json, seed 2: 4,955 tables rendered and 4,955 measured) / ~50k (thorough) generated tables (0..6 declared columns, 0..8 rows, all table and column options, nested "
     "Panel/Table/Padding cells, wide and zero-width characters, ragged and add_row-created columns, nested folding tables, over-long wide words; rendered WITH varying incoming ConsoleOptions "
     "(no_wrap / justify / overflow / highlight), the cell options being derived from the documented rule 'the column's own setting wins', "
     "title / caption inheriting overflow / no_wrap) with each real cell's oracle "
@@ -555,21 +564,22 @@ MANIFEST = {
     "exhaustively; the theorems' executable statements evaluated on rich's own output.",
     "note": "PARTIAL: exact expansion (`table_expand_exact_*`) is proved for free columns (no width/min_width/no_wrap: the statement's "
     "'no explicit width cap') incl. any ratios; for arbitrary columns the theorem is the bound width_bound_general, not exactness; "
-    "`table_exact_collapsed` keeps its stability hypothesis, discharged for text-like cells by `table_exact_collapsed_textlike`; ratio (flexible) columns are covered by table_rect / rows / columns and by table_expand_exact's general form (hypotheses on the first-pass "
-    "widths), not by the `_free` corollaries; non-wrappable columns can exceed the available width (ratio_reduce caps: "
-    "`ratioReduce 50 [1,1] [100,1] [100,1] = [75,0]`) - outside the statement.  Cells, title and caption are oracles (contract checked per "
+    "`table_exact_collapsed` keeps its stability hypothesis, discharged for text-like cells by `table_exact_collapsed_textlike`; ratio (flexible) columns are covered by table_rect / rows / columns, by table_expand_exact's general form (hypotheses on the first-pass "
+    "widths) and, for free columns with any non-negative ratios, by width_fits_any_ratio / table_expand_exact_any_ratio (flexNegative = flexClampZero = false), not by the `_free` corollaries; non-wrappable columns can exceed the available width below the structural minimum (ratio_reduce caps: "
+    "`ratioReduce 50 [1,1] [100,1] [100,1] = [75,0]`; below_structural_minimum_overflows) - outside the statement.  Cells, title and caption are oracles (contract checked per "
     "tabulated entry: rendered lines have exactly the requested width, 0 <= min <= max <= w); that a fold column's cell keeps every "
-    "non-whitespace character is C02's theorem, here only evaluated on real output (the characters found inside the column's span are compared with the cell's SOURCE text).  Styles are not in the Lean model; they are checked by direct evaluation (cell_styles / border_styles: every printed character carries "
+    "non-whitespace character is a hypothesis of cell_characters_in_column, discharged for text cells (Padding(Text), overflow fold, content width >= 2) by text_cell_characters_in_column from C02's theorems; for every other cell it is evaluated on real output (the characters found inside the column's span are compared with the cell's SOURCE text).  Styles are not in the Lean model; they are checked by direct evaluation (cell_styles / border_styles: every printed character carries "
     "table.style + row style + header/column/footer style + its own style, blank fill and separators likewise), as are add_row's "
     "cells (every column's cells ARE, by identity and position, the objects passed to add_row; created columns back-filled) and rectangularity and a fixed column's width + padding BY POSITION.  Box.substitute (legacy_windows / ascii_only / safe_box) is modelled "
     "through C08's Frames.substituteBox; a cell whose renderable raises makes the table raise exactly when it is consulted; control segments "
     "are transparent; Table.grid and Column objects are exercised; Column has no vertical alignment in 9.10.  Table.__rich_measure__ is modelled (`Table.richMeasure`) and compared per table.  "
     "Tables without columns are compared (widths, lines, measure, the AssertionError) but are outside the rectangle statement.  Domain of the direct evaluation: 'no negative column width' everywhere; the rest at available width >= structural "
-    "minimum (1 cell per free column, width/min_width + padding otherwise), exactness / positivity with ratio None or >= 1.  Trusted: Lean kernel, axioms "
+    "minimum (1 cell per free column, width/min_width + padding otherwise, 1 + padding for a ratio column), no negative ratio or padding (ratio 0 is inside since fix 75c2776).  Trusted: Lean kernel, axioms "
     "propext/Classical.choice/Quot.sound, translators harness/tables.py + harness/gen/table_boxes.py, the correspondence harness.  "
-    "Code-variant flags in this file match /repo as it is now: all six defects of rich 9.10.0 as found (F16 table-leading-multi dd342b5, "
+    "Code-variant flags in this file (LEADING_REPEAT, MIN_WIDTH_CAPS_EXPAND, FIXED_RAW_MAXIMUM, NO_COLUMNS_ASSERTS, FLEX_NEGATIVE, STALE_TABLE_WIDTH, FLEX_CLAMP_ZERO) match /repo as it is now: the six defects of rich 9.10.0 as found (F16 table-leading-multi dd342b5, "
     "table-expand-min-width c798468, table-expand-ratio-zero-width-column b5d172f, table-no-columns 1d61bac, flexible-width-negative ab98098, "
-    "table-expand-stale-width f955c6c) are repaired there and every flag is 0; a regression of a fix shows as a correspondence mismatch and a "
+    "table-expand-stale-width f955c6c) and the follow-up table-ratio-zero-column 75c2776 are repaired there and every flag is 0; known_findings.txt has no `known:` line for C07, so the check "
+    "prints no KNOWN-FINDING line; a regression of a fix shows as a correspondence mismatch and a "
     "direct-evaluation failure (the env variables VERIF_C07_<FLAG> override a flag for a run against another checkout).",
     "design_ref": "DESIGN.md section 7 (C01, C07, C08, C09 - layout), section 8 F16; lean/RichModel/Model/TABLE_API.md",
 }
